@@ -32,10 +32,10 @@ func (p *Patience) Bound() (time.Duration, bool) {
 	}
 	budget := p.Budget
 	if budget == 0 {
-		budget = 20 * time.Second
+		budget = 9 * time.Second
 	}
 	if p.spent > budget {
-		return 300 * time.Millisecond, false
+		return 100 * time.Millisecond, false
 	}
 	return kit.T(), false
 }
